@@ -439,7 +439,7 @@ func minimiseScript(pieces []*piece, class string) []*piece {
 
 func runC06(w *W) {
 	pp := newPiecePool(w)
-	n := w.pickN(6000, 200000)
+	n := w.pickN(20000, 500000)
 	for k := 0; k < n; k++ {
 		idx, mine := w.Case()
 		if !mine {
